@@ -444,6 +444,33 @@ def translate():
         for i, (a, b) in enumerate(zip(f["params"], ctys)):
             if a.ptr == b.ptr and a.consts != b.consts:
                 notes.append(f"const: {f['sym']} parameter {i + 1}: Rust {a.show_const()}  C {b.show_const()}")
+    report = []
+    for f, ok, ctys, cret in rows:
+        rs = ", ".join(p.show() for p in f["params"])
+        cs_ = ", ".join(p.show() for p in ctys)
+        where = f"{f['file']} fn {f['rust']}"
+        if not ok:
+            report.append(("extern-no-c-prototype", f["sym"], f"{where}: no C prototype or definition of {f['sym']} under simplicity-sys/depend"))
+            continue
+        if len(ctys) != len(f["params"]):
+            report.append(("extern-arity", f["sym"], f"{where}: Rust declares {len(f['params'])} parameters ({rs}), C has {len(ctys)} ({cs_})"))
+            continue
+        for i, (a, b) in enumerate(zip(f["params"], ctys)):
+            pn = f["pnames"][i]
+            if a.abi() != b.abi():
+                report.append(("extern-param-abi", f["sym"], f"{where}: parameter {i + 1} `{pn}`: Rust {a.show()} is {a.abi()} on x86-64 Linux, C {b.show()} is {b.abi()}"))
+            elif not (a.ptr == b.ptr and (a.base == b.base or (a.ptr >= 1 and "void" in (a.base, b.base)))):
+                cls = "extern-param-type"
+                if (a.base, b.base) == ("size_t", "uint_fast32_t") and a.ptr == 0:
+                    cls = "extern-param-size_t-for-uint_fast32_t"
+                elif a.base.startswith("fn(") and b.base.startswith("fn(") and a.base.rsplit(")->", 1)[0] == b.base.rsplit(")->", 1)[0]:
+                    cls = "extern-param-callback-return"
+                report.append((cls, f["sym"], f"{where}: parameter {i + 1} `{pn}`: Rust {a.show()}, C {b.show()}"))
+        if (f["ret"].ptr, f["ret"].base) != (cret.ptr, cret.base):
+            kind = "note-ret-abi" if f["ret"].abi() != cret.abi() else "note-ret-name"
+            report.append((kind, f["sym"], f"{where}: return type Rust {f['ret'].show()} ({f['ret'].abi()}), C {cret.show()} ({cret.abi()})"))
+    for n in notes:
+        report.append(("note-const", n.split()[1], n))
     out.append("/-- file, Rust name, linked symbol — for messages (same order as `decls`) -/")
     out.append("def names : List (String × String × String) := [")
     out.append(",\n".join(f'  ("{f["file"]}", "{f["rust"]}", "{f["sym"]}")' for f, _, _, _ in rows))
@@ -467,6 +494,12 @@ def translate():
         c = co.get(s["sym"], [])
         cty = c[0] if c else None
         srows.append((s, cty))
+        if cty is None:
+            report.append(("note-static", s["sym"], f"{s['file']} static {s['rust']}: no C object {s['sym']} found"))
+        else:
+            cb, rb = re.sub(r"\[[^\]]*\]", "[]", cty.base), re.sub(r"\[[^\]]*\]", "[]", s["ty"].base)
+            if (cty.ptr, cb) != (s["ty"].ptr, rb):
+                report.append(("note-static", s["sym"], f"{s['file']} static {s['rust']}: Rust {s['ty'].show()}, C {cty.show()}"))
     out.append("/-- extern statics: Rust type vs the C object's type (observation; the property speaks of functions) -/")
     out.append("def statics : List (String × String × String) := [")
     out.append(",\n".join(f'  ("{s["sym"]}", "{s["ty"].show()}", "{c.show() if c else "(no C object)"}")' for s, c in srows))
@@ -497,15 +530,22 @@ def translate():
     out.append(",\n".join('  "' + n.replace('"', "'") + '"' for n in notes))
     out.append("]")
     out.append("end Gen.Externs")
-    return "\n".join(out) + "\n", len(fns), len(statics), notes
+    if not call_ok or bad:
+        report.append(("extern-wrap", "WRAP_", f"wrapper.h WRAP_ forwards correctly: {call_ok}; wrapped jets not declared bool f(frameItem*, frameItem, const txEnv*): {sorted(set(bad))[:5]}"))
+    return "\n".join(out) + "\n", len(fns), len(statics), notes, report
 
 
 def main():
     try:
-        text, nf, ns, notes = translate()
+        text, nf, ns, notes, report = translate()
     except TranslateError as e:
         print(f"TRANSLATE-ERROR externs: {e}")
         sys.exit(3)
+    if "--rows" in sys.argv:
+        print(f"summary\t{nf}\t{ns}")
+        for cls, sym, detail in report:
+            print(f"{cls}\t{sym}\t{detail}")
+        return
     os.makedirs(os.path.dirname(OUT), exist_ok=True)
     old = open(OUT).read() if os.path.exists(OUT) else None
     if old != text:
